@@ -23,8 +23,10 @@
      (F) invalidation- after a successful Exec / Del every key on a reachable node is gone.
    The flags of [prop_gen] switch on the two exemptions that correspond to the known
    findings F7 (a read of a key with a failed invalidation outstanding is not required
-   to be coherent) and F11 (an explicit SetWithExpire with expiry <= 0 may create a
-   persistent key); [prop_ok] has both off. *)
+   to be coherent) and F11 (an EXPLICIT SetWithExpire with expiry <= 0 may create a
+   persistent key - nothing else may: not an option WithExpiry(0) / WithNotFoundExpiry(0),
+   which newOptions must replace by the defaults, not a jittered expiry); [prop_ok] has both
+   off. *)
 From Coq Require Import List ZArith Bool NArith.
 From GZ Require Export Lib.CheckLib C06.Model C06.Codec.
 Import ListNotations.
@@ -250,18 +252,14 @@ Definition p_lo (b : Z) : Z := cdiv (19 * b / 20) sec.
 Definition p_hi (b : Z) : Z := cdiv (21 * b / 20) sec.
 Definition band (b t : Z) : bool := (1 <=? t) && (p_lo b <=? t) && (t <=? p_hi b).
 
-(* F11's second face: a configured expiry below 2 ns can be jittered to 0 s *)
-Definition tiny (v : cval) : bool :=
-  match v with CHole => nf_of c <? 2 | _ => expiry_of c <? 2 end.
-
 Definition new_ok (r : rstate) (o : op) (mid : option Z) (ob : opobs) (e : dump_entry) : bool :=
   let '(k, v, ttl) := e in
   if ttl =? 0 then
+    (* a persistent key: never - except, under F11's exemption, the entry of an EXPLICIT
+       SetWithExpire whose requested expiry is <= 0, and nothing else *)
     f11 &&
     match o with
     | OSetEx p u w d => (d <=? 0) && key_eqb k (KP p) && cval_eqb v (CRow u w)
-    | OTake p _ | OSet p _ _ _ => key_eqb k (KP p) && tiny v
-    | OQri u _ => match k with KU u' => (u' =? u) && tiny v | KP _ => match v with CHole => tiny v | _ => (o_qi ob =? 0) && tiny v end end
     | _ => false
     end
   else
@@ -279,7 +277,7 @@ Definition new_ok (r : rstate) (o : op) (mid : option Z) (ob : opobs) (e : dump_
         if o_qi ob =? 1
         then (* written by the index load: expires exactly the gap after the index entry *)
           (0 <? safe_gap)
-          && (band (expiry_of c) (t - safe_gap) || (f11 && tiny v && (t =? safe_gap)))
+          && band (expiry_of c) (t - safe_gap)
           && match dget (o_dump ob) (KU u) with
              | Some (CPk p', ti) => (p' =? p) && (ttl =? ti + 1000 * safe_gap)
              | Some _ => false
